@@ -160,3 +160,64 @@ pub fn lex_inputs_stage(prop: &str, facet: &str, specs: &[&Spec], seeds: &[(usiz
         corpus_files,
     }
 }
+
+/// Coverage-guided operation sequences on RangeMap (C11 thorough). Returns (note, executions,
+/// crash message + artifact bytes).
+pub fn rangemap_stage(runs: u64, max_secs: u64) -> (String, u64, Option<(String, Vec<u8>)>) {
+    let dir = fuzz_dir("c11");
+    copy_tree(&verif("fuzz"), &dir);
+    let corpus = dir.join("corpus").join("rangemap_ops");
+    let artifacts = dir.join("artifacts_rm");
+    let _ = std::fs::remove_dir_all(&corpus);
+    let _ = std::fs::remove_dir_all(&artifacts);
+    let _ = std::fs::create_dir_all(&corpus);
+    let _ = std::fs::create_dir_all(&artifacts);
+    // a few valid seeds: insert, insert, remove
+    let _ = std::fs::write(corpus.join("s0"), [0u8, 2, 9, 1, 0, 5, 14, 2, 1, 0, 3, 11]);
+    let _ = std::fs::write(corpus.join("s1"), [0u8, 0, 23, 0, 2, 1, 4, 7, 9, 12, 1, 1, 1, 2, 20]);
+    let out = Command::new("timeout")
+        .current_dir(&dir)
+        .arg(format!("{}", max_secs))
+        .args(["cargo", "+nightly", "fuzz", "run", "-s", "none", "--fuzz-dir", ".", "rangemap_ops"])
+        .arg(&corpus)
+        .arg("--")
+        .arg(format!("-runs={}", runs))
+        .arg(format!("-seed={}", (seed() % 0xffff_fffe) + 1))
+        .args(["-len_control=0", "-max_len=96", "-print_final_stats=1"])
+        .arg(format!("-artifact_prefix={}/", artifacts.display()))
+        .env("CARGO_NET_OFFLINE", "true")
+        .stdout(Stdio::piped())
+        .stderr(Stdio::piped())
+        .output();
+    let (ok, stderr) = match out {
+        Ok(o) => (o.status.success(), String::from_utf8_lossy(&o.stderr).to_string()),
+        Err(e) => return (format!("cargo +nightly fuzz unavailable: {}", e), 0, None),
+    };
+    let executed = stderr
+        .lines()
+        .find(|l| l.starts_with("stat::number_of_executed_units:"))
+        .and_then(|l| l.split(':').last())
+        .and_then(|x| x.trim().parse::<u64>().ok())
+        .unwrap_or(0);
+    let mut crash = None;
+    if let Ok(rd) = std::fs::read_dir(&artifacts) {
+        for e in rd.flatten() {
+            if e.file_name().to_string_lossy().starts_with("crash-") {
+                if let Ok(bytes) = std::fs::read(e.path()) {
+                    let msg = stderr.lines().find(|l| l.contains("VERIF-C11")).unwrap_or("crash in RangeMap").to_string();
+                    crash = Some((msg, bytes));
+                }
+            }
+        }
+    }
+    let note = if ok {
+        "completed".to_string()
+    } else if crash.is_some() {
+        "crash artifact found".to_string()
+    } else if stderr.contains("error: could not compile") || stderr.contains("error[E") {
+        format!("fuzz build failed: {}", crate::pipe::trunc(&stderr, 400))
+    } else {
+        "ended abnormally without an artifact (time budget?)".to_string()
+    };
+    (note, executed, crash)
+}
